@@ -130,3 +130,111 @@ def gen_build_case(r, allow_big=True):
 
 def line_of(hdr, ops):
     return " ".join(hdr + [t for o in ops for t in o])
+
+
+# ---------------------------------------------------------------- byte strings for C03 / C02
+
+def py_ext(x):
+    if x < 13:
+        return x, b""
+    if x < 269:
+        return 13, bytes([x - 13])
+    return 14, bytes([((x - 269) >> 8) & 0xff, (x - 269) & 0xff])
+
+
+def py_opt(delta, val):
+    dn, de = py_ext(delta)
+    ln, le = py_ext(len(val))
+    return bytes([dn * 16 + ln]) + de + le + val
+
+
+def py_serialize(proto, ty, code, mid, token, opts, payload):
+    """input generator only (valid encodings to mutate); never used as an oracle"""
+    body = b""
+    prev = 0
+    for n, v in sorted(opts, key=lambda o: o[0]):
+        body += py_opt(n - prev, v)
+        prev = n
+    if payload:
+        body += b"\xff" + payload
+    tl = len(token)
+    if tl < 13:
+        tkl, tarea = tl, token
+    elif tl < 269:
+        tkl, tarea = 13, bytes([tl - 13]) + token
+    else:
+        tkl, tarea = 14, bytes([((tl - 269) >> 8) & 0xff, (tl - 269) & 0xff]) + token
+    if proto == "udp":
+        hdr = bytes([64 + 16 * ty + tkl, code, mid >> 8, mid & 0xff])
+    elif proto == "ws":
+        hdr = bytes([tkl, code])
+    else:
+        l = len(body)
+        if l <= 12:
+            hdr = bytes([16 * l + tkl, code])
+        elif l <= 268:
+            hdr = bytes([208 + tkl, l - 13, code])
+        elif l <= 65804:
+            hdr = bytes([224 + tkl, (l - 269) >> 8, (l - 269) & 0xff, code])
+        else:
+            x = l - 65805
+            hdr = bytes([240 + tkl, (x >> 24) & 0xff, (x >> 16) & 0xff, (x >> 8) & 0xff, x & 0xff, code])
+    return hdr + tarea + body
+
+
+def rbytes(r, n):
+    return bytes(r.randrange(256) for _ in range(n))
+
+
+def gen_valid_msg(r, small=True):
+    """-> (proto, bytes, field boundaries) a valid encoding"""
+    proto = r.choice(["udp", "udp", "tcp", "ws"])
+    x = r.random()
+    code = r.choice([1, 2, 3, 4]) if x < 0.5 else r.choice([69, 68, 132, 160]) if x < 0.8 else \
+        r.choice([225, 226, 228, 229]) if x < 0.9 else r.randrange(1, 256)
+    tl = r.choice([0, 1, 2, 4, 8, 12, 13, 14, 20] if small else TOK_LEN)
+    nopt = r.choice([0, 1, 2, 3, 4, 6])
+    opts = []
+    nums = []
+    for _ in range(nopt):
+        n = pick_num(r, nums)
+        nums.append(n)
+        ln = pick_len(r, n, False, code >= 224)
+        if small:
+            ln = min(ln, r.choice([0, 1, 3, 12, 13, 14, 20]))
+            if n in LIMITS:
+                ln = max(ln, LIMITS[n][0])
+        opts.append((n, rbytes(r, ln)))
+    pl = r.choice([0, 0, 1, 2, 5, 13])
+    return proto, py_serialize(proto, r.randrange(4), code, r.randrange(65536), rbytes(r, tl),
+                               opts, rbytes(r, pl))
+
+
+def mutate(r, b):
+    """one mutation aimed at a field: nibble, extension byte, TKL, length prefix, truncation,
+    marker insertion/removal"""
+    b = bytearray(b)
+    if not b:
+        return bytes([r.randrange(256)])
+    k = r.randrange(9)
+    i = r.randrange(len(b))
+    if k == 0:                       # high nibble to every value
+        b[i] = (r.randrange(16) << 4) | (b[i] & 0x0f)
+    elif k == 1:                     # low nibble
+        b[i] = (b[i] & 0xf0) | r.randrange(16)
+    elif k == 2:                     # extension-like byte values
+        b[i] = r.choice([0x00, 0x01, 0xfd, 0xfe, 0xff, 0xd0, 0xe0, 0xdd, 0xee, 0x0d, 0x0e])
+    elif k == 3:                     # truncation
+        del b[r.randrange(len(b)):]
+    elif k == 4:                     # marker insertion
+        b.insert(i, 0xff)
+    elif k == 5:                     # marker / byte removal
+        j = b.find(b"\xff")
+        del b[j if j >= 0 and r.random() < 0.7 else i]
+    elif k == 6:                     # first byte (version / type / TKL / Len)
+        b[0] = r.randrange(256)
+    elif k == 7:                     # append
+        b += rbytes(r, r.choice([1, 1, 2, 3, 13]))
+    else:                            # flip a bit
+        b[i] ^= 1 << r.randrange(8)
+    return bytes(b)
